@@ -268,6 +268,42 @@ theorem const_division_by_zero_rejected (op : BinOp) (hop : op = .quo ∨ op = .
     simp [checkBinary, BinOp.cls, matchTypes, Ty.isTyped, bind, Except.bind, checkArith, opDefined, Ty.isNumeric,
       Ty.isInteger, CVal.isZero]
 
+/-! ### declaration/use bookkeeping -/
+
+/-- a name redeclared by a multi-name `:=` is assigned, not used: the statement uses exactly the
+identifiers of its right-hand sides -/
+theorem redeclaration_is_not_a_use (x y : Nat) (e₁ e₂ : Expr) :
+    (Stmt.shortDecl2 x y e₁ e₂).uses = e₁.idents ++ e₂.idents := rfl
+
+/-- a plain assignment does not use its left-hand side either -/
+theorem assignment_is_not_a_use (x : Nat) (e : Expr) : (Stmt.assign x e).uses = e.idents := rfl
+
+/-- **a variable that is only declared, assigned or redeclared — never read — makes the body
+rejected** ("declared and not used"), however many times it is assigned -/
+theorem assigned_only_variable_rejected (ss : List Stmt) (Γ : Env) (h : checkStmts [] ss = .ok Γ)
+    (x : Nat) (t : BType) (hx : (x, Entry.var t) ∈ Γ) (hu : x ∉ ss.flatMap Stmt.uses) :
+    checkProgram ss = .error .unusedVar := by
+  unfold checkProgram
+  simp only [h, bind, Except.bind]
+  have hmem : x ∈ unusedVars Γ ss := by
+    simp only [unusedVars, List.mem_map, List.mem_filter]
+    refine ⟨(x, Entry.var t), ⟨hx, ?_⟩, rfl⟩
+    simp [hu]
+  cases hl : unusedVars Γ ss with
+  | nil => rw [hl] at hmem; cases hmem
+  | cons a l => simp
+
+/-- `a, b := 1, 2; _ = b; a, c := 3, 4; _ = c`: `a` is declared and redeclared but never read -/
+example : checkProgram [.shortDecl2 0 1 (.intLit 1) (.intLit 2), .assignBlank (.ident 1),
+    .shortDecl2 0 2 (.intLit 3) (.intLit 4), .assignBlank (.ident 2)] = .error .unusedVar := rfl
+/-- … and with a read of `a` it is accepted -/
+example : ∃ Γ, checkProgram [.shortDecl2 0 1 (.intLit 1) (.intLit 2), .assignBlank (.ident 1),
+    .shortDecl2 0 2 (.intLit 3) (.intLit 4), .assignBlank (.binary .add (.ident 2) (.ident 0))] = .ok Γ :=
+  ⟨_, rfl⟩
+/-- a multi-name `:=` without a new name is rejected -/
+example : checkProgram [.shortDecl2 0 1 (.intLit 1) (.intLit 2), .shortDecl2 0 1 (.intLit 3) (.intLit 4)]
+    = .error .noNewVars := rfl
+
 /-- a constant is a constant exactly when all its operands are -/
 theorem binary_constant_iff_operands_constant (op : BinOp) (x y z : Operand) (h : checkBinary op x y = .ok z) :
     z.val.isSome = (x.val.isSome && y.val.isSome) := checkBinary_const h
